@@ -103,7 +103,7 @@ func VerifC14_FailuresWithRetries() {
 // Run returns, and an unexplained never-started task means Run reports an error.
 func VerifC14_Cancellation() {
 	vNativeReset()
-	s := newScenario(scenarioOpts{n: 3, cancel: true, outcomes: oNil})
+	s := newScenario(scenarioOpts{n: 3, cancel: true, modes: true, outcomes: oNil})
 	vAssume(s.cancelBy != -1)
 	s.cancelEarly = vBool("cancelearly") // the task cancels when it starts (and keeps running) or when it ends
 	s.build()
